@@ -20,7 +20,7 @@ def run_on_mutant(patch, prop, tier="quick", quiet=False):
         if p.returncode != 0:
             print("PATCH DOES NOT APPLY:", p.stderr)
             return 3, p.stderr
-        env = dict(os.environ, VERIF_REPO=dst, VERIF_NO_EVIDENCE="1")
+        env = dict(os.environ, VERIF_REPO=dst, VERIF_NO_EVIDENCE="1", VERIF_REPLAY_DIR=os.path.join(tmp, "replays"))
         p = subprocess.run([os.path.join(ROOT, "check"), prop, "--tier", tier], env=env, capture_output=True, text=True, cwd=ROOT)
         if not quiet:
             print(p.stdout[-4000:])
